@@ -261,6 +261,16 @@ Definition assert_ (cond : bool) : M unit := if cond then ret tt else raise Asse
 (* what on_request_complete returns: Union[socket.socket, bool] *)
 Inductive orc_ret := RetBool (b : bool) | RetSocket.
 
+(* how the handling of one decrypted chunk by on_client_data can fail (everything on_client_data calls:
+   the parser of follow-up requests, the plugins' handle_client_request) *)
+Inductive pipe_failure :=
+| PipeProtocol (outs : list bytes)
+      (* an HttpProtocolException whose response() is None (what HttpParser.parse raises on malformed
+         input) after [outs] had been queued for the origin (requests completed earlier in the same chunk);
+         HttpProtocolHandler.handle_data catches it and returns True *)
+| PipeRaise (e : pyexn).
+      (* any other exception: it leaves handle_data and is routed by HttpProtocolHandler.handle_readables *)
+
 (* ================================================================== the model *)
 Section Model.
   (* ---- oracles ---- *)
@@ -509,11 +519,12 @@ Section Model.
   (* ---------------------------------------------------------------- handler glue and relay *)
   Variable PS : Type.       (* state of the parser of decrypted follow-up requests (C02's subject) *)
   Variable RS : Type.       (* state of the response parser *)
-  Variable pipeline_step : PS -> bytes -> option (PS * list bytes).
+  Variable pipeline_step : PS -> bytes -> (PS * list bytes) + pipe_failure.
       (* on_client_data, intercepted branch: parse; every completed request is rebuilt and queued.
-         None = the parser / a plugin raised *)
+         inr = the parser / a plugin raised *)
   Variable response_step : RS -> bytes -> option RS.
-      (* read_from_descriptors: self.response.parse(raw) bookkeeping; None = it raised *)
+      (* read_from_descriptors: self.response.parse(raw) bookkeeping; None = it raised (the guarded try
+         block of fix ba95ac6 swallows that: the parser only serves the access log) *)
 
   Inductive hmode :=
   | Running          (* handler reads from the client and from the upstream *)
@@ -575,7 +586,16 @@ Section Model.
           mkH s Closed (Some e) (pipe h) (resp h)
     end.
 
-  (* server.py on_client_data(raw); [answers] = the plugins' do_intercept answers at this call *)
+  (* "if self.reads_teared and not self.work.has_buffer(): return True" *)
+  Definition teared (h : hstate) (m : hmode) : hstate :=
+    match cl_buf (ps h) with [] => with_mode h Closed | _ => with_mode h m end.
+  Definition escape (h : hstate) (e : pyexn) : hstate := mkH (ps h) Closed (Some e) (pipe h) (resp h).
+
+  (* server.py on_client_data(raw); [answers] = the plugins' do_intercept answers at this call;
+     with the routing of an exception by its callers HttpProtocolHandler.handle_data (except
+     HttpProtocolException: queue e.response() if any, return True -> BaseTcpServerHandler.handle_readables
+     arms must_flush_before_shutdown when output is pending) and HttpProtocolHandler.handle_readables
+     (except ssl.SSLWantReadError: return False / except socket.error: return True) *)
   Definition on_client_data (fl : flags) (answers : list bool) (raw : bytes) (h : hstate) : hstate :=
     let s := ps h in
     match up s with
@@ -583,23 +603,29 @@ Section Model.
     | _ =>
         if tls_intercept_enabled_ fl answers then
           match pipeline_step (pipe h) raw with
-          | Some (p', outs) =>
+          | inl (p', outs) =>
               mkH (fst (set_up_buf (up_buf s ++ outs) s)) (mode h) (escaped h) p' (resp h)
-          | None => mkH s Closed (Some HttpProtocolException_) (pipe h) (resp h)
+          | inr (PipeProtocol outs) =>
+              let s' := fst (set_up_buf (up_buf s ++ outs) s) in
+              with_mode (with_ps h s') (after_handle_data_true s')
+          | inr (PipeRaise e) =>
+              if is_SSLWantReadError e then h
+              else if is_OSError e then teared h ReadsTeared
+              else escape h e
           end
         else with_ps h (fst (set_up_buf (up_buf s ++ [raw]) s))
     end.
 
   (* server.py read_from_descriptors, the branch in which the upstream descriptor is readable
-     and recv() returned [raw] *)
+     and recv() returned [raw].  The response parser is bookkeeping only: whether it digests the chunk
+     or raises (try / except Exception, fix ba95ac6), the chunk is queued for the client and the relay
+     goes on.  (After a raise the parser object is in whatever state the failure left; nothing
+     observable depends on it, the model keeps the previous abstract state.) *)
   Definition read_from_descriptors (fl : flags) (answers : list bool) (raw : bytes) (h : hstate) : hstate :=
     let s := ps h in
     if tls_intercept_enabled_ fl answers then
-      match response_step (resp h) raw with
-      | Some r' =>
-          mkH (fst (set_cl_buf (cl_buf s ++ [raw]) s)) (mode h) (escaped h) (pipe h) r'
-      | None => mkH s Closed (Some HttpProtocolException_) (pipe h) (resp h)
-      end
+      let r' := match response_step (resp h) raw with Some r' => r' | None => resp h end in
+      mkH (fst (set_cl_buf (cl_buf s ++ [raw]) s)) (mode h) (escaped h) (pipe h) r'
     else with_ps h (fst (set_cl_buf (cl_buf s ++ [raw]) s)).
 
   (* outcome of one send() *)
@@ -635,11 +661,6 @@ Section Model.
             FsSent (take sent mv) (if sent =? len mv then rest else drop sent mv :: rest)
         end
     end.
-
-  (* "if self.reads_teared and not self.work.has_buffer(): return True" *)
-  Definition teared (h : hstate) (m : hmode) : hstate :=
-    match cl_buf (ps h) with [] => with_mode h Closed | _ => with_mode h m end.
-  Definition escape (h : hstate) (e : pyexn) : hstate := mkH (ps h) Closed (Some e) (pipe h) (resp h).
 
   Definition step (fl : flags) (h : hstate) (ev : event) : hstate :=
     match mode h with
@@ -855,7 +876,7 @@ Definition established {PS RS : Type} (h : hstate PS RS) : Prop :=
 
 Section Reference.
   Variable PS RS : Type.
-  Variable pipeline_step : PS -> bytes -> option (PS * list bytes).
+  Variable pipeline_step : PS -> bytes -> (PS * list bytes) + pipe_failure.
   Variable response_step : RS -> bytes -> option RS.
   (* what on_client_data queues for the origin when fed these decrypted chunks in order (C02's subject) *)
   Fixpoint pipeline_outs (p : PS) (raws : list bytes) : option (list bytes) :=
@@ -863,8 +884,8 @@ Section Reference.
     | [] => Some []
     | raw :: t =>
         match pipeline_step p raw with
-        | Some (p', outs) => option_map (app outs) (pipeline_outs p' t)
-        | None => None
+        | inl (p', outs) => option_map (app outs) (pipeline_outs p' t)
+        | inr _ => None
         end
     end.
   Fixpoint responses_ok (r : RS) (raws : list bytes) : bool :=
